@@ -124,7 +124,9 @@ JudgeCodec(e) ==
          ELSE IF e.codec = "prufer" THEN
               (IF e.code # PruferEncode(G) THEN "PruferEncode differs from the definition" ELSE DecWhy(e.dec, G, "PruferDecode(PruferEncode(t))"))
          ELSE IF e.codec = "mc" THEN
-              (IF e.enc # McEncode(G) THEN "Multicode bytes differ from the format" ELSE DecWhy(e.dec, G, "MulticodeDecode"))
+              (IF e.enc # McEncode(G) THEN "Multicode bytes differ from the format"
+               ELSE IF e.adj # AdjMatEncode(G) THEN "AdjacencyMatrixEncode differs from the documented layout"
+               ELSE DecWhy(e.dec, G, "MulticodeDecode"))
          ELSE IF e.codec = "g6" THEN
               (IF ~InRange(e.enc) THEN "graph6 uses a byte outside 63..126"
                ELSE IF e.enc # G6Encode(G) THEN "graph6 string differs from the format definition"
